@@ -305,6 +305,52 @@ theorem dtm_roundtrip_secs (d : DateTime) (hv : d.valid = true) (dst : Bool) :
   unfold mkDateTime
   simp [hv, Except.map]
 
+/-- the 12-character form (no seconds byte: `until` of a mode command) reads back as the same minute, second 0 -/
+theorem dtm_roundtrip_nosecs (d : DateTime) (hv : d.valid = true) :
+    hexToDtm (hexFromDtm (some d) false false) = .ok (some { d with second := 0 }) := by
+  obtain ⟨h1, h2, h3, h4, h5, h6, h7, h8, h9⟩ := valid_bounds d hv
+  have hfrom : hexFromDtm (some d) false false = fmtHex 2 d.minute ++ (fmtHex 2 d.hour ++
+      (fmtHex 2 d.day ++ (fmtHex 2 d.month ++ (fmtHex 4 d.year ++ [])))) := by simp [hexFromDtm]
+  rw [hfrom]
+  have l2 : ∀ n, n < 256 → (fmtHex 2 n).length = 2 := fun n hn =>
+    fmtHex_length 2 n (by decide) (by simpa using hn)
+  have l4 : (fmtHex 4 d.year).length = 4 := fmtHex_length 4 _ (by decide) (by simp; omega)
+  have t2 : ∀ n rest, n < 256 → takeHex 2 (fmtHex 2 n ++ rest) = some (n, rest) := fun n rest hn =>
+    takeHex_fmtHex 2 n rest (by decide) (by simpa using hn)
+  have t4 : ∀ rest, takeHex 4 (fmtHex 4 d.year ++ rest) = some (d.year, rest) := fun rest =>
+    takeHex_fmtHex 4 _ rest (by decide) (by simp; omega)
+  have e0 : ∀ rest : List Char, ('0' :: '0' :: rest) = fmtHex 2 0 ++ rest := fun _ => rfl
+  have hnf : ¬ (fmtHex 2 d.minute ++ (fmtHex 2 d.hour ++ (fmtHex 2 d.day ++ (fmtHex 2 d.month ++
+      (fmtHex 4 d.year ++ [])))) = "FFFFFFFFFFFF".toList) := by
+    intro he
+    have r : dtmFields ('0' :: '0' :: "FFFFFFFFFFFF".toList) = some (0, 255, 255, 255, 255, 65535) := by
+      decide
+    have := congrArg (fun v => dtmFields ('0' :: '0' :: v)) he
+    rw [r, e0] at this
+    unfold dtmFields at this
+    simp only [t2 0 _ (by omega), t2 d.minute _ (by omega), t2 d.hour _ (by omega),
+      t2 d.day _ (by omega), t2 d.month _ (by omega), t4] at this
+    injection this with this
+    simp only [Prod.mk.injEq] at this
+    omega
+  unfold hexToDtm
+  have hlen : (fmtHex 2 d.minute ++ (fmtHex 2 d.hour ++ (fmtHex 2 d.day ++
+      (fmtHex 2 d.month ++ (fmtHex 4 d.year ++ []))))).length = 12 := by
+    simp [l2 d.minute (by omega), l2 d.hour (by omega), l2 d.day (by omega), l2 d.month (by omega), l4]
+  rw [hlen]
+  simp only [ne_eq, not_true_eq_false, false_and, if_false, Nat.sub_self, List.drop_zero, hnf, if_true, e0]
+  simp only [t2 0 _ (by omega), t2 d.minute _ (by omega), t2 d.hour _ (by omega),
+    t2 d.day _ (by omega), t2 d.month _ (by omega), t4]
+  have hh : d.hour % 32 = d.hour := by omega
+  rw [hh]
+  have hv0 : ({ d with second := 0 } : DateTime).valid = true := by
+    unfold DateTime.valid at hv ⊢
+    simp only [decide_eq_true_eq] at hv ⊢
+    obtain ⟨a1, a2, a3, a4, a5, a6, a7, a8, _⟩ := hv
+    exact ⟨a1, a2, a3, a4, a5, a6, a7, a8, by omega⟩
+  unfold mkDateTime
+  simp [hv0, Except.map]
+
 /-- packed fault-log timestamps: every second of the century 2000–2099 (the window of the
     library's two-digit-year text form), symbolically -/
 theorem dts_roundtrip (d : DateTime) (hv : d.valid = true) (hy0 : 2000 ≤ d.year) (hy : d.year ≤ 2099) :
